@@ -1,20 +1,26 @@
-"""C16 runtime part: the malformed-input stream.
+"""C16 runtime part: the input stream.
 
-Inputs: the shipped example files and the string literals of /repo/src (unit-test inputs), mutated
-(token deletion / duplication / swap, numeral inflation to the limits of isize/usize and beyond,
-huge variable indices, operator soup, unbalanced parentheses, deep nesting, huge arities, empty
-file, comments only, NUL / non-UTF-8 bytes, CRLF, BOM, a token / keyword repeated 3..6 times), at
-most 4 KB; plus a fixed corpus: every keyword / operator / bracket of a small file of each type
-repeated, and - in-process - every token of valid texts of every node type repeated.
-Every input goes through EVERY command of the CLI (parse --as x4, translate --with x5, simplify
-3x3, analyze x2, verify in six role assignments + the example's own task) under a 10 s watchdog, and
-through `str::parse::<T>()` of all 43 node types in-process (harness op `parse_any`).
+Inputs (at most 4 KB): the shipped example files and the string literals of /repo/src (unit-test inputs), mutated
+(token deletion / duplication / swap, numeral inflation to the limits of isize/usize and beyond, huge variable
+indices, names that meet anthem's own generated names, operator soup, unbalanced parentheses, 20 nesting shapes
+from 20 levels to what fits in 4 KB, huge arities, empty file, comments only, NUL / non-UTF-8 bytes, CRLF, BOM, a
+token / keyword repeated 3..6 times); wide programs with a user guide that declares their predicates; a fixed corpus
+(every keyword / operator / bracket of a small file of each type repeated, every nesting shape at 4 KB, one wide
+program of every form) and - in-process - every token of valid texts of every node type repeated; printed random
+trees of the framework's generators (accepted texts).
+Every input goes through EVERY command of the CLI (parse --as x4 (+2), translate --with x5, simplify 3x3, analyze x2,
+verify in eight role assignments + the example's own task, 4 commands on stdin; a wide program also through verify
+external against itself x3 and its tau-star theory through simplify 3x3) under a 10 s watchdog, and through
+`str::parse::<T>()` of all 43 node types in-process (harness op `parse_any`).
 
-A crash = exit status 101, "panicked at" on stderr, death by signal, or a timeout.  Crashes inside
-the recorded classes (known_findings.jsonl: F3a, F11, F15; F3b, F14, F16, F19 are repaired, their inputs kept) are counted; the class is
-recognised from the INPUT (e.g. a digit run beyond isize::MAX) together with the symptom, so that
-a different crash on the same input, or the same symptom on another kind of input, is still a
-VIOLATION whose replay is the input file and the command.
+A crash = exit status 101 / 134, "panicked at" on stderr, death by signal, or a timeout.  Crashes inside the recorded
+classes (known_findings.jsonl: F3a, F11 panics; F20 stack overflow abort; F15, F21, F22 slower than the watchdog; F3b,
+F14, F16, N1, F19 are repaired) are counted; a class is recognised from the INPUT TEXT (c16lib.measures: operator nesting,
+bracket nesting, width; a digit run beyond isize::MAX; ..) together with the symptom and, for the slow classes, a
+control run, so that a different crash on the same input, or the same symptom on another kind of input, is still a
+VIOLATION whose replay is the input file and the command.  A class whose entry is no longer `known`, or whose recorded
+input no longer shows its panic / abort on the tree under test, is closed: nothing is booked in it.
+A command id that accepts no input of the run stops the check with INTERNAL-ERROR (exit status 2).
 """
 import os
 import re
@@ -43,10 +49,13 @@ def extra(ctx, cfg, results, inprocess=True):
     thorough = ctx.tier == "thorough"
     n_inputs = 12000 if thorough else 1800
     n_inproc = 8000 if thorough else 900
+    n_accepted = 30000 if thorough else 5000
+    if os.environ.get("C16_SMALL"):          # debugging aid (trying a recogniser / a seeded change quickly): the fixed inputs and few others
+        n_inputs, n_inproc, n_accepted = 300, 50, 400
     r = clilib.rng(ctx, "inputs")
     tasks = example_tasks()
     strings = source_strings()
-    dist = {"inputs": 0, "cli_runs": 0, "mutation": {}, "accepted_by_command": {}, "rejected_by_command": {}, "known_class_crashes": {},
+    dist = {"inputs": 0, "cli_runs": 0, "mutation": {}, "accepted_by_command": {}, "rejected_by_command": {}, "known_class_crashes": {}, "known_class_by_command": {},
             "corpus": {"example_tasks": len(tasks), "source_string_literals": len(strings)}, "input_size": {}, "in_process_cases": 0,
             "in_process_outcomes": {}}
     inputs = []     # (text bytes, task or None, origin)
@@ -76,8 +85,22 @@ def extra(ctx, cfg, results, inprocess=True):
     repeated = cli_repeat_corpus()
     for t in repeated:
         inputs.append((t.encode(), None, "fixed: repeated token"))
+    # every nesting shape at the 4 KB the property's quantifier names, and one wide program of every form with its user guide
+    wide_of = {}
+    for shape in sorted(NEST_SHAPES):
+        inputs.append((nest_text(shape, nest_max(shape)), None, "fixed: nesting 4 KB"))
+    for form in sorted(WIDE_FORMS):
+        for n in (24, 75) if form in ("head-arith", "body-arith", "body-literals") else (24,):
+            text, ug, _, _ = wide_text(r, form, n)
+            wide_of[len(inputs)] = ug
+            inputs.append((text, None, "fixed: wide arity"))
     n_fixed = len(inputs)
     while len(inputs) < n_inputs:
+        if r.random() < 0.012:
+            text, ug, _, _ = wide_text(r)
+            wide_of[len(inputs)] = ug
+            inputs.append((text, None, "wide arity"))
+            continue
         if tasks and r.random() < 0.45:
             eq, flags, files = r.choice(tasks)
             which = r.randrange(len(files))
@@ -99,37 +122,54 @@ def extra(ctx, cfg, results, inprocess=True):
     # every generator, specifications, outlines, user guides), each through the commands that read that kind of text
     accepted = []
     if inprocess:
-        accepted = accepted_texts(ctx.seed, 30000 if thorough else 5000)
+        accepted = accepted_texts(ctx.seed, n_accepted)
     dist["accepted_text_inputs"] = {}
     only_of = {}
     for text, only, origin in accepted:
         only_of[len(inputs)] = only
         inputs.append((text, None, origin))
         bump(dist["accepted_text_inputs"], origin.split(":")[1])
+    # which recorded classes are open on THIS tree: the entry is still `known`, and - for the classes with a fast symptom
+    # (a panic, an abort) - the recorded input still shows it.  A class that is closed (repaired) books nothing: a crash
+    # that would have fallen into it is a VIOLATION.
+    closed = compute_closed_classes(ctx)
+    dist["closed_classes (repaired on this tree: a crash of such a class is a VIOLATION)"] = sorted(closed)
+    if closed:
+        log(f"C16: recorded classes closed on this tree: {sorted(closed)}")
     with clilib.Scratch("C16") as scratch:
-        outs = clilib.pmap_processes(run_input_job, [(exe, scratch, i, t[0], t[1], only_of.get(i)) for i, t in enumerate(inputs)])
+        heavy = {i for i, t in enumerate(inputs) if i in wide_of or t[2] == "fixed: nesting 4 KB"}
+        outs = pmap_jobs([(exe, scratch, i, t[0], t[1], only_of.get(i), wide_of.get(i)) for i, t in enumerate(inputs)], heavy)
     crashes = []
-    for (text, task, origin), res in zip(inputs, outs):
+    walls = {}
+    by_command = {}     # command id -> {"accepted": exit 0, "rejected": error exit, "known-class": .., "crash": ..}
+    for i, ((text, task, origin), res) in enumerate(zip(inputs, outs)):
         dist["inputs"] += 1
         bump(dist["input_size"], vlib.histogram([len(text)], buckets=(0, 16, 64, 256, 1024, 4096)).popitem()[0])
         bump(dist["mutation"], origin.split(":")[0] if origin.startswith("example") else origin)
         if origin.startswith("accepted:"):
-            for cid, argv, rc, crashed, cls, site, err, has_out in res:
+            for cid, argv, rc, crashed, cls, site, err, has_out, wall in res:
                 bump(dist.setdefault("accepted_text_outcomes", {}), "crash" if crashed else "exit 0" if rc == 0 else f"exit {rc}")
         accepted_somewhere = False
-        for cid, argv, rc, crashed, cls, site, err, has_out in res:
+        for cid, argv, rc, crashed, cls, site, err, has_out, wall in res:
             dist["cli_runs"] += 1
+            walls[cls if crashed and cls else "crash" if crashed else "other"] = walls.get(cls if crashed and cls else "crash" if crashed else "other", 0.0) + wall
             ctx.evaluations += 1
+            row = by_command.setdefault(cid, {"accepted": 0, "rejected": 0, "known-class": 0, "crash": 0})
             if crashed:
                 if cls:
                     bump(dist["known_class_crashes"], cls)
+                    bump(dist["known_class_by_command"].setdefault(cls, {}), cid)
+                    row["known-class"] += 1
                 else:
-                    crashes.append((len(text), text, cid, argv, rc, site, err, origin, task))
+                    crashes.append((len(text), text, cid, argv, rc, site, err, origin, task, wide_of.get(i)))
+                    row["crash"] += 1
             elif rc == 0:
                 bump(dist["accepted_by_command"], cid)
+                row["accepted"] += 1
                 accepted_somewhere = True
             else:
                 bump(dist["rejected_by_command"], cid)
+                row["rejected"] += 1
         if accepted_somewhere:
             ctx.nontrivial.add(text)
     # in-process parsing of every node type
@@ -183,25 +223,55 @@ def extra(ctx, cfg, results, inprocess=True):
         if cls:
             bump(dist["known_class_crashes"], cls + " (in-process)")
         else:
-            crashes.append((len(t), t, "parse_any/" + k, ["<in-process>", k], None, o, "", "in-process", None))
+            crashes.append((len(t), t, "parse_any/" + k, ["<in-process>", k], None, o, "", "in-process", None, None))
     # report
     crashes.sort(key=lambda c: (c[0], c[2]))
     sites = {}
     for c in crashes:
         sites.setdefault(c[5], []).append(c)
     for site, cs in list(sites.items())[:6]:
-        size, text, cid, argv, rc, _, err, origin, task = cs[0]
+        size, text, cid, argv, rc, _, err, origin, task, wide = cs[0]
         ctx.violation(f"anthem crashes ({site}) on an input outside the recorded classes; command {cid}",
                       {"kind": "custom-crash", "command_id": cid, "argv": argv, "input_latin1": text.decode("latin1"), "input_repr": repr(text)[:600],
-                       "exit_code": rc, "stderr_tail": err, "site": site, "origin": origin, "inputs_with_this_site": len(cs), "task": list(task) if task else None}, True)
+                       "exit_code": rc, "stderr_tail": err, "site": site, "origin": origin, "inputs_with_this_site": len(cs), "task": list(task) if task else None,
+                       "wide_user_guide_latin1": wide.decode("latin1") if wide is not None else None,
+                       "measures (opdepth, nestdepth, width)": list(measures(text))}, True)
     if crashes:
         ctx.notes.append(f"{len(crashes)} crashing runs outside the recorded classes at {len(sites)} distinct sites: {sorted(sites)[:12]}")
+    dist["process_seconds (last attempt of each run; 16 inputs side by side)"] = {k: round(v, 1) for k, v in sorted(walls.items())}
+    dist["by_command"] = {c: by_command[c] for c in sorted(by_command)}
     ctx.distribution["malformed_input_stream"] = dist
+    # a command id that accepted NOTHING saw only its own error path: the stages behind its parser were not exercised by
+    # this run (audit B1: five fixed-role verify commands rejected 100 % of their inputs because of their companion
+    # program).  That is a defect of the CHECK, not of anthem: an internal error, not a property violation.
+    never = sorted(c for c, row in by_command.items() if row["accepted"] == 0)
+    if never:
+        msg = ("INTERNAL-ERROR: property=C16 the stream is blind on these command ids (0 inputs accepted, "
+               + ", ".join(f"{c}: {by_command[c]['rejected']} rejected / {by_command[c]['known-class']} known-class / {by_command[c]['crash']} crash" for c in never)
+               + "): fix the companion files / generators of props/c16lib.py")
+        ctx.notes.append(msg)
+        if inprocess and not crashes:
+            print(msg, flush=True)
+            sys.exit(2)
+        log(msg)
     ctx.samples.insert(0, {"note": "three inputs of the stream (repr)", "inputs": [repr(t)[:200] for t, _, _ in inputs[n_fixed + 5: n_fixed + 8]]})
     acc = sum(dist["accepted_by_command"].values())
     log(f"C16 stream: {dist['inputs']} inputs, {dist['cli_runs']} CLI runs ({acc} accepted, {sum(dist['rejected_by_command'].values())} rejected with an error), "
         f"{dist['in_process_cases']} in-process parses {dist['in_process_outcomes']}; crashes in recorded classes {dist['known_class_crashes']}; "
         f"other crashes: {len(crashes)}")
+
+
+def compute_closed_classes(ctx):
+    closed = set()
+    entries = {e["id"]: e for e in vlib.known_findings("C16")}
+    for cls in ("F3a", "F11", "F15", "F20", "F21", "F22"):
+        e = entries.get(cls)
+        if e is None or e.get("status") != "known":
+            closed.add(cls)
+        elif "timeout_s" not in e and "cmd" in e and not replay_known(ctx, e)[0]:
+            closed.add(cls)
+    os.environ["C16_CLOSED_CLASSES"] = ",".join(sorted(closed))
+    return closed
 
 
 def parse_any_corpus():
@@ -221,17 +291,42 @@ def parse_any_corpus():
 
 # ------------------------------------------------------------------ known findings through the CLI
 
+def generated_text(gen):
+    """the stdout of a generator command line (an argv list, no shell), e.g. ["python3", "-c", "print('p(' + '-'*3000 + '1).')"]"""
+    import subprocess
+    return subprocess.run(gen, stdout=subprocess.PIPE, check=True, timeout=30).stdout
+
+
 def replay_known(ctx, e):
-    """known_findings.jsonl entries with a `cmd`: write `input_text`, run the CLI, look for the symptom."""
+    """known_findings.jsonl entries with a `cmd`: write the recorded input(s), run the CLI, look for the symptom.
+    Input: `input_text`, or `input_gen` = the generator command line (argv list) whose stdout is the input, under
+    `input_name`; further files in `files`: {name: {"text": ..} | {"gen": [..]}}.  `cmd` refers to them as {input},
+    {outdir}, {file:<name>}.  Symptom: `exit_code` + `stderr_contains`; or `timeout_s` (still running after that many
+    seconds) - then `control_cmd`, if given, must FINISH with exit 0 within 20 s on the same files (the same command
+    line without the slow stage: the finding is slowness of that stage, not a hang of the command)."""
     exe = clilib.anthem_exe()
     with clilib.Scratch("C16-known-" + e["id"]) as scratch:
-        f = clilib.write(os.path.join(scratch, e.get("input_name", "input.lp")), e["input_text"])
+        text = e["input_text"] if "input_text" in e else generated_text(e["input_gen"])
+        f = clilib.write(os.path.join(scratch, e.get("input_name", "input.lp")), text)
+        names = {}
+        for name, src in e.get("files", {}).items():
+            names[name] = clilib.write(os.path.join(scratch, name), src["text"] if "text" in src else generated_text(src["gen"]))
         os.makedirs(os.path.join(scratch, "out"))
-        argv = [a.replace("{input}", f).replace("{outdir}", os.path.join(scratch, "out")) for a in e["cmd"]]
-        rr = clilib.run([exe] + argv, timeout=e.get("timeout_s", 20))
+
+        def subst(a):
+            a = a.replace("{input}", f).replace("{outdir}", os.path.join(scratch, "out"))
+            for name, path in names.items():
+                a = a.replace("{file:" + name + "}", path)
+            return a
+        rr = clilib.run([exe] + [subst(a) for a in e["cmd"]], timeout=e.get("timeout_s", 20))
+        control = None
+        if "timeout_s" in e and rr.timed_out and "control_cmd" in e:
+            control = clilib.run([exe] + [subst(a) for a in e["control_cmd"]], timeout=20)
     if "timeout_s" in e:
+        if rr.timed_out and control is not None and (control.crashed or control.rc != 0):
+            return False, f"the command is still running after {e['timeout_s']} s, but so does / fails its control command (exit {control.rc}): not this class"
         return rr.timed_out, ("still running after %s s" % e["timeout_s"] if rr.timed_out else f"finished in {rr.wall:.1f} s")
-    still = rr.rc == e.get("exit_code", 101) and e.get("stderr_contains", "panicked at").encode() in rr.err
+    still = rr.rc in (e.get("exit_code", 101), -e.get("signal", 0) or None) and e.get("stderr_contains", "panicked at").encode() in rr.err
     return still, (rr.err[-200:].decode("latin1") or f"exit {rr.rc}")
 
 
@@ -244,10 +339,12 @@ def replay(ctx, cfg, r):
         print("parse_any", k, repr(text)[:300], "->", o)
         bad = o != r["expected"] if r.get("expected") else o not in ("ok", "err")
     else:
+        compute_closed_classes(ctx)
         with clilib.Scratch("C16-replay") as scratch:
-            res = run_input(exe, scratch, 0, text, tuple(r["task"]) if r.get("task") else None)
+            wide = r.get("wide_user_guide_latin1")
+            res = run_input(exe, scratch, 0, text, tuple(r["task"]) if r.get("task") else None, wide=wide.encode("latin1") if wide is not None else None)
             bad = False
-            for cid, argv, rc, crashed, cls, site, err, _ in res:
+            for cid, argv, rc, crashed, cls, site, err, _, _ in res:
                 if crashed and not cls:
                     print("CRASH", cid, "exit", rc, site)
                     print(err)
